@@ -121,3 +121,16 @@ claim("C11", "proof",
       "relies on the state being a vector of non-negative integers (integrality itself is C07's obligation). Known finding: the "
       "redistribution of sub-molecule totals does not terminate (hang, listed in known_findings.txt).",
       "deductive: symbolic interpretation of clang AST with loop invariants + SMT; sanitizer replay battery", "DESIGN.md 3/C11")
+claim("C09", "proof",
+      "Engine side, on the real C++ through the clang-AST interpreter: Sample appends (t, copy of the state) iff the per-step flag "
+      "is clear and leaves earlier records untouched; SampleOnTSample (while loop cut by a quantified invariant) stops the cursor "
+      "at the first requested time after t, covers every skipped time, makes at most one record per step and makes it iff a "
+      "requested time was reached; SampleOnInterval records iff a new multiple of the interval was passed; policy dispatch "
+      "(every step / none); Iterate of the four fixed-step classes advances t by dt, completes iff t' > t_max >= 0, returns "
+      "!complete, and is the identity once complete; Gillespie time strictly increases when an event fires; Init records at t = 0 "
+      "exactly for the policies that ask for it and that record holds the initial state; engineexport_get_trajectory writes entry "
+      "(sample, species, cell) at sample*S*M + species*M + cell (Skolem pointwise invariant through the triple loop). "
+      "Python: RDScript.t_max defaults to the last requested time.",
+      "A1 (t = k*dt exact). The Python unmarshalling (_get_data/_get_t_sample) is checked with the seam in C04. Requested times "
+      "sorted (quantifier). A2: uniform draws are in (0,1).",
+      "deductive: symbolic interpretation of clang AST with loop invariants + SMT", "DESIGN.md 3/C09")
